@@ -4,10 +4,23 @@ import (
 	"github.com/modernizing/coca/languages/java"
 	"github.com/modernizing/coca/pkg/domain/core_domain"
 	"reflect"
+	"strings"
 )
 
+// AnnotationName gives the qualified name of an annotation in either form the grammar accepts:
+// `@a.b.C` (qualifiedName) or `a.b.@C` (altAnnotationQualifiedName); both name a.b.C
+func AnnotationName(ctx *parser.AnnotationContext) string {
+	if ctx.QualifiedName() != nil {
+		return ctx.QualifiedName().GetText()
+	}
+	if ctx.AltAnnotationQualifiedName() != nil {
+		return strings.Replace(ctx.AltAnnotationQualifiedName().GetText(), "@", "", 1)
+	}
+	return ""
+}
+
 func BuildAnnotation(ctx *parser.AnnotationContext) core_domain.CodeAnnotation {
-	annotationName := ctx.QualifiedName().GetText()
+	annotationName := AnnotationName(ctx)
 	annotation := core_domain.NewAnnotation()
 	annotation.Name = annotationName
 	if ctx.ElementValuePairs() != nil {
